@@ -147,10 +147,18 @@ def close(a, b, tol=TOL):
   return bool(np.all(np.abs(a - b) <= tol * (1.0 + np.abs(b))))
 
 
-def zero_pattern_ok(model, real):
-  """where the model's value is exactly 0 the implementation's must be exactly 0.0"""
-  model, real = np.asarray(model).reshape(-1), np.asarray(real).reshape(-1)
-  return model.shape == real.shape and bool(np.all(real[model == 0.0] == 0.0))
+def zero_rows_ok(parts, real):
+  """constraint rows the model says are inactive (zero jacobian row, diag 0, aref 0) must be exactly zero in the
+  implementation too (the masks multiply by an exact 0); `parts`/`real` = [jac flattened, diag, aref]"""
+  k = len(real[1])
+  if k == 0:
+    return all(len(p_) == 0 for p_ in parts)
+  if any(len(a) != len(b) for a, b in zip(parts, real)):
+    return False
+  mj, rj = np.asarray(parts[0]).reshape(k, -1), np.asarray(real[0]).reshape(k, -1)
+  inactive = np.all(mj == 0.0, axis=1) & (np.asarray(parts[1]) == 0.0) & (np.asarray(parts[2]) == 0.0)
+  return bool(np.all(rj[inactive] == 0.0) and np.all(np.asarray(real[1])[inactive] == 0.0)
+              and np.all(np.asarray(real[2])[inactive] == 0.0))
 
 
 # ----------------------------------------------------------------------------- private jaxpr_eval extensions
@@ -321,8 +329,11 @@ def corr_jac_limit(rng, cases, n_models, stats):
 
       def chk(o, real=real, types=types, xml=xml, q=q, qd=qd):
         parts = parse_parts(o)
+        if not zero_rows_ok(parts, real):
+          return dict(what='jac_limit (float): a row that is inactive in the Lean model is not exactly zero in the implementation',
+                      types=types, xml=xml, q=q.tolist(), qd=qd.tolist())
         for nm, m, r in zip(('jac', 'diag', 'aref'), parts, real):
-          if not close(m, r) or not zero_pattern_ok(m, r):
+          if not close(m, r):
             return dict(what=f'jac_limit (float): {nm} of the Lean model differs from the implementation', types=types,
                         xml=xml, q=q.tolist(), qd=qd.tolist(), lean=m.tolist()[:12], real=r.tolist()[:12])
       cases.add(line, chk, 'jac_limit:float')
@@ -468,8 +479,11 @@ def corr_generalized_contact(rng, cases, n_models, stats):
 
     def chk(o, real=real, tag=tag, xml=xml, q=q, qd=qd):
       parts = parse_parts(o)
+      if not zero_rows_ok(parts, real):
+        return dict(what='jac_contact: a row that is inactive in the Lean model is not exactly zero in the implementation',
+                    model=tag, xml=xml, q=q.tolist(), qd=qd.tolist())
       for nm, m, r in zip(('jac', 'diag', 'aref'), parts, real):
-        if not close(m, r) or not zero_pattern_ok(m, r):
+        if not close(m, r):
           return dict(what=f'jac_contact: {nm} of the Lean model differs from the implementation', model=tag, xml=xml,
                       q=q.tolist(), qd=qd.tolist(), lean=m.tolist()[:12], real=r.tolist()[:12])
     cases.add(line, chk, 'jac_contact')
@@ -541,14 +555,29 @@ def dof_tokens(sysm, ks):
   return t
 
 
+CHART = 1.4   # |q| bound on the coordinates of 2-/3-dof links: the Euler chart of the joint parametrisation
+
+
+def dof_multi(sysm):
+  """per dof: does it belong to a 2- or 3-dof link?"""
+  out = []
+  for t in sysm.link_types:
+    out += [t in '23'] * {'f': 6, '1': 1, '2': 2, '3': 3}[t]
+  return np.array(out, dtype=bool)
+
+
 def state_inside(rng, sysm, margin=0.05, q_range=1.2, qd_range=1.0):
-  """q with every limited coordinate strictly inside its range (by `margin`)"""
+  """q with every limited coordinate strictly inside its range (by `margin`).  Coordinates of 2-/3-dof links stay
+  within the chart |q| < 1.4 < pi/2 in which the spring/positional joint angles (`axis_angle_ang`) coincide with q
+  (beyond pi/2 on the middle axis the Euler decomposition flips: C08's domain, not a limit effect)"""
   q, qd = modelgen.rand_state(rng, sysm, q_range=q_range, qd_range=qd_range)
   if sysm.dof.limit is not None:
     lo, hi = A(sysm.dof.limit[0]), A(sysm.dof.limit[1])
+    multi = dof_multi(sysm)
     for a, b in zip(np.asarray(sysm.q_idx('123')), np.asarray(sysm.qd_idx('123'))):
       if np.isfinite(lo[b]) and np.isfinite(hi[b]):
-        q[a] = rng.uniform(lo[b] + margin, hi[b] - margin)
+        l, h = (max(lo[b], -CHART), min(hi[b], CHART)) if multi[b] else (lo[b], hi[b])
+        q[a] = rng.uniform(l + margin, h - margin)
   return q, qd
 
 
@@ -1057,3 +1086,303 @@ def check_rebound_case(r, e, h, density, name):
     return dict(base, key=f'rebound:{name}:ratio', what=f'{name}: sphere r={r:.3f} e={e} dropped from {h:.3f} m hits at {vin:.4f} m/s and rebounds '
                 f'at {vout:.4f} m/s: ratio {ratio:.4f} - e = {ratio - e:+.4f} outside [{lo}, {hi}]'), info
   return None, info
+
+
+# ---- clause runners (top-level, picklable: they run in worker processes)
+
+
+def _guard(fn, base_key, base):
+  """an exception raised by the implementation on an input inside the quantifier is a spec failure"""
+  try:
+    return fn()
+  except RuntimeError:
+    raise
+  except Exception as e:  # noqa: BLE001
+    import traceback
+    tb = traceback.format_exc()
+    if '/harness/' in tb.split('\n')[-4] if len(tb.split('\n')) > 4 else False:
+      raise
+    return dict(base, key=f'exception:{base_key}:{type(e).__name__}',
+                what=f'{base_key}: the implementation raises {type(e).__name__}: {str(e)[:200]}'), {}
+
+
+def run_separated(repo, seed, n_pairs, n_states, hist, budget_s):
+  worker_setup(repo)
+  from brax.io import mjcf
+  rng = np.random.default_rng(seed)
+  t0 = time.time()
+  fails, st = [], dict(cases=0, skipped=0, steps=0, min_dist=[], unit_dev=0.0, twin_diff=0.0, models=[])
+  for mi in range(n_pairs):
+    if time.time() - t0 > budget_s:
+      break
+    xml, meta = modelgen.gen_model(rng, collide=True, ground=True, limits=0.3, actuators=(0, 2), n_links=(1, 4))
+    sysm = mjcf.loads(xml)
+    st['models'].append(meta['link_types'])
+    for si in range(n_states):
+      q, qd = modelgen.rand_state(rng, sysm, q_range=1.0)
+      act = rng.uniform(-1, 1, size=sysm.act_size())
+      for name in PIPELINES:
+        base = dict(clause='separated', pipeline=name, xml=xml, q=q.tolist(), qd=qd.tolist(), act=act.tolist(), hist=hist)
+        f, info = _guard(lambda: check_separated_case(xml, q, qd, act, name, hist if si == 0 else 0), f'separated:{name}', base)
+        if info.get('skipped'):
+          st['skipped'] += 1
+          continue
+        st['cases'] += 1
+        st['steps'] += info.get('steps', 0)
+        st['min_dist'].append(round(info.get('min_dist', 0.0), 4))
+        st['unit_dev'] = max(st['unit_dev'], info.get('unit_dev', 0.0))
+        st['twin_diff'] = max(st['twin_diff'], info.get('twin_diff', 0.0))
+        if f:
+          fails.append(f)
+  return dict(clause='separated', fails=fails, stats=st)
+
+
+def run_limit(repo, seed, n_pairs, n_states, budget_s):
+  worker_setup(repo)
+  from brax.io import mjcf
+  rng = np.random.default_rng(seed)
+  t0 = time.time()
+  fails, st = [], dict(cases=0, skipped=0, twin_diff=0.0, models=[], three_hinge_pairs=0)
+  for mi in range(n_pairs):
+    if time.time() - t0 > budget_s:
+      break
+    if mi == 0:
+      xml, types = three_hinge_xml(rng), '33(right+left-handed)'
+      st['three_hinge_pairs'] += 1
+    else:
+      xml, meta = modelgen.gen_model(rng, limits=0.8, actuators=(0, 2), n_links=(1, 4), orthogonal=(mi % 2 == 1))
+      types = meta['link_types'] + (':orth' if mi % 2 == 1 else '')
+    sysm = mjcf.loads(xml)
+    if sysm.dof.limit is None:
+      continue
+    st['models'].append(types)
+    for si in range(n_states):
+      q, qd = state_inside(rng, sysm, qd_range=0.3)
+      act = rng.uniform(-1, 1, size=sysm.act_size())
+      for name in PIPELINES:
+        base = dict(clause='limit', pipeline=name, xml=xml, q=q.tolist(), qd=qd.tolist(), act=act.tolist())
+        f, info = _guard(lambda: check_limit_case(xml, q, qd, act, name), f'limit:{name}', base)
+        if info.get('skipped'):
+          st['skipped'] += 1
+          continue
+        st['cases'] += 1
+        st['twin_diff'] = max(st['twin_diff'], info.get('twin_diff', 0.0))
+        if f:
+          fails.append(f)
+  return dict(clause='limit', fails=fails, stats=st)
+
+
+def run_push(repo, seed, n_bodies, budget_s):
+  worker_setup(repo)
+  rng = np.random.default_rng(seed)
+  t0 = time.time()
+  fails, st = [], dict(cases=0, pushed=0, shapes={}, min_dz=np.inf, min_dv={}, positional_velocity_after_push=0.0)
+  shapes = ['sphere', 'box', 'capsule']
+  rng.shuffle(shapes)
+  for bi in range(n_bodies):
+    if time.time() - t0 > budget_s:
+      break
+    shape, size, dens = rand_body(rng)
+    if bi < 3:
+      while shape != shapes[bi]:
+        shape, size, dens = rand_body(rng)
+    quat = modelgen.rand_unit_quat(rng)
+    depth = float(rng.uniform(0.002, 0.02))
+    st['shapes'][shape] = st['shapes'].get(shape, 0) + 1
+    for g in (-9.81, 0.0):
+      for name in PIPELINES:
+        base = dict(clause='push', pipeline=name, shape=shape, size=size, density=dens, quat=list(map(float, quat)), depth=depth, gravity=g)
+        f, info = _guard(lambda: check_push_case(shape, size, dens, quat, depth, g, name), f'push:{name}', base)
+        st['cases'] += 1
+        st['pushed'] += int(info.get('pushed', False))
+        st['min_dz'] = min(st['min_dz'], info.get('dz', np.inf))
+        st['min_dv'][name] = min(st['min_dv'].get(name, np.inf), info.get('dv', np.inf))
+        if name == 'positional':
+          st['positional_velocity_after_push'] = min(st['positional_velocity_after_push'], info.get('dv', 0.0))
+        if f:
+          fails.append(f)
+  return dict(clause='push', fails=fails, stats=st)
+
+
+def run_rest(repo, seed, n_bodies, seconds, budget_s):
+  worker_setup(repo)
+  rng = np.random.default_rng(seed)
+  t0 = time.time()
+  fails, st = [], dict(cases=0, seconds=seconds, max_sink={}, max_rest_err={}, shapes={})
+  for bi in range(n_bodies):
+    if time.time() - t0 > budget_s:
+      break
+    shape, size, dens = rand_body(rng)
+    h = float(rng.uniform(0.0, 0.5))
+    st['shapes'][shape] = st['shapes'].get(shape, 0) + 1
+    for name in PIPELINES:
+      base = dict(clause='rest', pipeline=name, shape=shape, size=size, density=dens, h=h, seconds=seconds)
+      f, info = _guard(lambda: check_rest_case(shape, size, dens, h, name, seconds), f'rest:{name}', base)
+      st['cases'] += 1
+      st['max_sink'][name] = max(st['max_sink'].get(name, 0.0), info.get('sink', 0.0))
+      st['max_rest_err'][name] = max(st['max_rest_err'].get(name, 0.0), info.get('rest_err', 0.0))
+      if f:
+        fails.append(f)
+  return dict(clause='rest', fails=fails, stats=st)
+
+
+def run_rebound(repo, seed, n_spheres, budget_s):
+  worker_setup(repo)
+  rng = np.random.default_rng(seed)
+  t0 = time.time()
+  fails, st = [], dict(cases=0, ratio_minus_e={}, spring_formula_err=0.0, spring_formula_checked=0)
+  for k in range(n_spheres):
+    if time.time() - t0 > budget_s:
+      break
+    r = float(rng.uniform(0.05, 0.3))
+    e = float(np.round(rng.uniform(0, 0.9), 3)) if k else float(rng.choice([0.0, 0.9]))
+    h = float(rng.uniform(0.2, 1.0))
+    dens = float(rng.uniform(200, 3000))
+    for name in ('spring', 'positional'):
+      base = dict(clause='rebound', pipeline=name, r=r, e=e, h=h, density=dens)
+      f, info = _guard(lambda: check_rebound_case(r, e, h, dens, name), f'rebound:{name}', base)
+      st['cases'] += 1
+      if 'ratio_minus_e' in info:
+        lo, hi = st['ratio_minus_e'].get(name, (np.inf, -np.inf))
+        st['ratio_minus_e'][name] = (min(lo, info['ratio_minus_e']), max(hi, info['ratio_minus_e']))
+      if 'formula_err' in info:
+        st['spring_formula_checked'] += 1
+        st['spring_formula_err'] = max(st['spring_formula_err'], info['formula_err'])
+      if f:
+        fails.append(f)
+  return dict(clause='rebound', fails=fails, stats=st)
+
+
+def spec_jobs(ctx, seed_offset=0, scale=1.0):
+  """(function, args) of the five clauses, sized for the tier"""
+  q = ctx.tier != 'thorough'
+  sd = ctx.seed + seed_offset
+  b = ctx.budget(100, 900) * scale
+  n = lambda quick, thorough: max(1, int(round((quick if q else thorough) * scale)))
+  return [
+      (run_separated, (ctx.repo, sd + 11, n(2, 14), 2, 12 if q else 40, b)),
+      (run_limit, (ctx.repo, sd + 12, n(3, 16), 2, b)),
+      (run_push, (ctx.repo, sd + 13, n(2, 12), b)),
+      (run_rest, (ctx.repo, sd + 14, n(1, 10), 3.0, b)),
+      (run_rebound, (ctx.repo, sd + 15, n(2, 12), b)),
+  ]
+
+
+def run_spec(ctx, seed_offset=0, scale=1.0, pool=None):
+  """submit the five clauses to worker processes; returns the futures (call `.result()`)"""
+  import concurrent.futures as cf
+  import multiprocessing as mp
+  own = pool is None
+  if own:
+    pool = cf.ProcessPoolExecutor(max_workers=5, mp_context=mp.get_context('spawn'))
+  futs = [pool.submit(fn, *args) for fn, args in spec_jobs(ctx, seed_offset, scale)]
+  return pool, futs
+
+
+def collect_spec(pool, futs):
+  res = [f.result() for f in futs]
+  pool.shutdown()
+  fails = [f for r in res for f in r['fails']]
+  stats = {r['clause']: r['stats'] for r in res}
+  return fails, stats
+
+
+def dedupe(fails):
+  seen, out = set(), []
+  for f in fails:
+    if f['key'] not in seen:
+      seen.add(f['key'])
+      out.append(f)
+  return out
+
+
+def correspond(ctx):
+  _setup()
+  rng = np.random.default_rng(ctx.seed)
+  pool, futs = run_spec(ctx)          # the property's own observations run in worker processes meanwhile
+  cases = Cases()
+  stats = dict(jac_limit_models=[], limit_rows=0, limit_rows_active=0, gen_contact_models=[], gen_contact_rows=0,
+               gen_contact_rows_active=0, solver_min_x=np.inf, force_cases=0, sp_models=[], leaf_cases=0,
+               leaf_twin_inside=0, unit_dev_max=0.0, synthetic_rows=0, synthetic_rows_penetrating=0,
+               separated_function_cases=0)
+  spec_failures = []
+  try:
+    corr_jac_limit(rng, cases, ctx.budget(3, 20), stats)
+    corr_generalized_contact(rng, cases, ctx.budget(2, 14), stats)
+    corr_spring_positional(rng, cases, ctx.budget(2, 12), stats, spec_failures)
+    dis = cases.run()
+  except BaseException:
+    pool.shutdown(cancel_futures=True)
+    raise
+  fails, spec_stats = collect_spec(pool, futs)
+  spec_failures = dedupe(spec_failures + fails)
+  if not stats['solver_min_x'] >= -1e-12:
+    dis.append(dict(what=f'trusted assumption violated: jaxopt.ProjectedGradient returned x with min {stats["solver_min_x"]} < 0'))
+  stats['solver_min_x'] = None if not np.isfinite(stats['solver_min_x']) else stats['solver_min_x']
+  n_spec = sum(v.get('cases', 0) for v in spec_stats.values())
+  distinct = len(cases.lines) + n_spec
+  return dict(
+      evaluations=len(cases.lines) + n_spec, distinct_nontrivial=distinct,
+      rule='correspondence cases: one per (function, model, state) — jac_limit exact-rational + float (3 states per model: inside / on a bound / '
+           'outside), jac_contact and force on generalized states with real contacts, spring leaf functions per non-free link with and '
+           'without dof.limit, collision resolvers on synthetic contact rows (penetrating, touching, separated) and with contact None, '
+           'joint update, integrators; spec cases: one per (clause, model pair or body, state, pipeline) actually compared (skipped touching / '
+           'out-of-range states not counted); distinct_nontrivial = all of them (every case has its own random model or state)',
+      samples=[dict(kinds=cases.kinds), dict(spec={k: {a: b for a, b in v.items() if a in ('cases', 'skipped', 'models', 'shapes')}
+                                                 for k, v in spec_stats.items()})],
+      disagreements=dis, spec_failures=spec_failures,
+      trusted_base=['correspondence harness corr_C06.py (sampled inputs; float64 1e-9; exact-rational for jac_limit/_imp_aref)',
+                    'harness/jaxpr_eval.py + three private extensions (symbolic bool->int, element-wise natural pow) evaluating the jaxpr of '
+                    'jac_limit over Fraction; self-checked against the jitted function on every case',
+                    'jaxopt.ProjectedGradient: MODELLED as a parameter (`solver a b`); the push-only theorem assumes it returns x >= 0 '
+                    '(min x measured on every run: extra.correspondence.solver_min_x); force_zero_of_inactive assumes nothing about it',
+                    'mjx.collision / contact.get: contacts are DATA for the models (C10 ties contact.get)',
+                    'scan.tree (reverse) of point_jacobian and scan.link_types modelled as the recursion/slicing they implement (Layer B stage 1)',
+                    'whole-step models Spring.step / Positional.step are tied by C04\'s correspondence; C06 ties every function its theorems mention '
+                    'and observes whole steps of the real pipelines directly (twin models)',
+                    'generalized dynamics (mass matrix, qf_smooth) is C02\'s; here mass_mx_inv and qf_smooth are inputs of `force`'],
+      assumptions=['IEEE round-off not modelled; theorems over ordered fields / the reals',
+                   'theorem hypotheses on joint coordinates are stated on the angle / offset the code itself measures (psi, theta, phi, '
+                   'signed_angle, j.pos . axis); that these equal q is C08\'s round trip (and was false for the middle hinge of a left-handed '
+                   '3-hinge stack before fix f5f04c1: observed by clause (b), not visible to the theorem)',
+                   'resting height, sink depth and rebound margins are float outcomes of a simulation: observed (corr/out), bounds measured per '
+                   f'pipeline: sink <= {SINK_MAX}, rest error <= {REST_TOL}, rebound ratio - e in {REBOUND}',
+                   'positional push-only is claimed at the position level (dlambda > 0, first body +n, second -n); its velocity pass may reduce the '
+                   'normal velocity (XPBD restitution removes the push-out velocity): recorded in extra.spec.push.positional_velocity_after_push'],
+      explanation='masks decide: theorems show every limit/contact term is multiplied by (pos < 0) / (dist < 0) / apply_n / coll_mask, normal '
+                  'impulses are >= 0, normalisation gives unit quaternions; the five clauses of the property are evaluated on the three real '
+                  'pipelines on every run',
+      extra=dict(correspondence=stats, case_kinds=cases.kinds, spec=spec_stats,
+                 tolerances=dict(float=TOL, unit=TOL_UNIT, sink_max=SINK_MAX, rest_tol=REST_TOL, rebound=REBOUND)))
+
+
+def search(ctx, broken, corr):
+  """the Spec (five clauses) against the real pipelines on fresh seeds"""
+  pool, futs = run_spec(ctx, seed_offset=1000, scale=0.6 if ctx.tier != 'thorough' else 1.0)
+  fails, _ = collect_spec(pool, futs)
+  return dedupe(fails)
+
+
+def replay(ctx, rp):
+  if rp.get('kind') != 'failing-input':
+    return True, f'replay names broken obligations only: {rp.get("broken")}'
+  worker_setup(ctx.repo)
+  cl, name = rp.get('clause'), rp.get('pipeline')
+  try:
+    if cl == 'separated':
+      f, info = check_separated_case(rp['xml'], np.array(rp['q']), np.array(rp['qd']), np.array(rp['act']), name, int(rp.get('hist', 0)))
+    elif cl == 'limit' and 'link' not in rp:
+      f, info = check_limit_case(rp['xml'], np.array(rp['q']), np.array(rp['qd']), np.array(rp['act']), name)
+    elif cl == 'push':
+      f, info = check_push_case(rp['shape'], rp['size'], rp['density'], np.array(rp['quat']), rp['depth'], rp['gravity'], name)
+    elif cl == 'rest':
+      f, info = check_rest_case(rp['shape'], rp['size'], rp['density'], rp['h'], name, rp['seconds'])
+    elif cl == 'rebound':
+      f, info = check_rebound_case(rp['r'], rp['e'], rp['h'], rp['density'], name)
+    else:
+      return True, f'function-level spec failure {rp.get("key")}: re-run `./bin/check C06 quick` with VERIF_SEED={rp.get("seed")}'
+  except Exception as e:  # noqa: BLE001
+    return False, f'{cl}/{name}: the implementation raises {type(e).__name__}: {e}'
+  if f:
+    return False, f['what']
+  return True, f'{cl}/{name}: holds on this input ({info})'
